@@ -12,7 +12,9 @@ import (
 	"encoding/json"
 	"fmt"
 	"io"
+	"math/rand"
 	"reflect"
+	"sort"
 	"sync"
 
 	"github.com/networkteam/qrb/builder"
@@ -161,13 +163,19 @@ type c10Result struct {
 	Violations []string `json:"violations"`
 }
 
+var c10KeyFamilies = [][]string{
+	{"Name", "name", "NAME"}, {"id", "ID", "Id", "iD"}, {"a", "A", "b", "B"}, {"x", " x", "x "}, {"é", "É", "e\u0301"},
+	{"col", "col_", "col_1", "col_10", "col_2"}, {"ab", "a_b", "aB", "Ab"}, {"ß", "ss", "SS"}, {"", " "},
+}
+
 func runC10(out io.Writer, seed int64, n int, reps int) {
 	enc := json.NewEncoder(out)
 	g := gen.New(seed, pool)
 	sg := &gen.S{G: g}
 	type item struct {
-		w    builder.SQLWriter
-		prog string
+		w       builder.SQLWriter
+		rebuild func() builder.SQLWriter // map-based inputs: the same contents in a fresh map (new insertion / iteration order)
+		prog    string
 		ref  obs
 	}
 	var items []item
@@ -175,6 +183,7 @@ func runC10(out io.Writer, seed int64, n int, reps int) {
 		func() {
 			defer func() { recover() }()
 			var w builder.SQLWriter
+			var rebuild func() builder.SQLWriter
 			var prog string
 			switch len(items) % 3 {
 			case 0: // map-based setters with many keys
@@ -183,16 +192,42 @@ func runC10(out io.Writer, seed int64, n int, reps int) {
 				for i := 0; i < k; i++ {
 					m[fmt.Sprintf("col_%d_%c", g.Rng.Intn(1000), 'a'+rune(g.Rng.Intn(26)))] = pool[g.Rng.Intn(len(pool))]
 				}
+				// keys that an order other than sort.Strings' byte order may fail to separate: equal up to letter case,
+				// up to surrounding blanks, up to Unicode case / normalisation, up to a common prefix, digits
 				if g.Rng.Intn(2) == 0 {
-					w, prog = builder.InsertInto(builder.N("t")).SetMap(m), fmt.Sprintf("InsertInto(t).SetMap(<%d keys>)", k)
+					fam := c10KeyFamilies[g.Rng.Intn(len(c10KeyFamilies))]
+					for _, key := range fam {
+						m[key] = pool[g.Rng.Intn(len(pool))]
+					}
+				}
+				keys := make([]string, 0, len(m))
+				for key := range m {
+					keys = append(keys, key)
+				}
+				sort.Strings(keys)
+				ins := g.Rng.Intn(2) == 0
+				mk := func() builder.SQLWriter {
+					m2 := make(map[string]any, len(m))
+					for _, j := range rand.Perm(len(keys)) {
+						m2[keys[j]] = m[keys[j]]
+					}
+					if ins {
+						return builder.InsertInto(builder.N("t")).SetMap(m2)
+					}
+					return builder.Update(builder.N("t")).SetMap(m2)
+				}
+				rebuild = mk
+				w = mk()
+				if ins {
+					prog = fmt.Sprintf("InsertInto(t).SetMap(map with keys %q)", keys)
 				} else {
-					w, prog = builder.Update(builder.N("t")).SetMap(m), fmt.Sprintf("Update(t).SetMap(<%d keys>)", k)
+					prog = fmt.Sprintf("Update(t).SetMap(map with keys %q)", keys)
 				}
 			default:
 				w, prog, _ = sg.Statement(1 + g.Rng.Intn(4))
 			}
 			if w != nil {
-				items = append(items, item{w, prog, observe(w, allBinds)})
+				items = append(items, item{w, rebuild, prog, observe(w, allBinds)})
 			}
 		}()
 	}
@@ -202,7 +237,11 @@ func runC10(out io.Writer, seed int64, n int, reps int) {
 	}
 	var mu sync.Mutex
 	check := func(i int, where string) {
-		o := observe(items[i].w, allBinds)
+		w := items[i].w
+		if items[i].rebuild != nil && where != "sequential" {
+			w, where = items[i].rebuild(), where+", map rebuilt with the same contents"
+		}
+		o := observe(w, allBinds)
 		mu.Lock()
 		results[i].Renders++
 		if o != items[i].ref {
